@@ -19,7 +19,9 @@ EXPLANATION = (
     "equal multiplicity and equivalent guards (truth-table comparison), and both expression wrappers "
     "evaluate all nodes once, in order; C01-R3 the same source reaches ast.parse and symtable, the "
     "tree handed to either unparser is the unmodified result of convert, and every supported "
-    "statement kind has a dispatch row."
+    "statement kind has a dispatch row. Conjuncts evaluated by this check with their own rule ids: the "
+    "structural clauses of C02, C05-C07, C09, C11-C14 and C04-R3 (replacement fields of f-strings "
+    "printed by the project's unparser, one of the option values C01 quantifies over)."
 )
 ASSUMPTIONS = ["behavioural equivalence itself is not decided (see the per-feature properties)"]
 
@@ -395,6 +397,7 @@ def _conjuncts():
     out = []
     for mod, ids in (
         ("c02", ("C02-R1", "C02-R2", "C02-R3")),
+        ("c04", ("C04-R3",)),  # unparser="oneliner" is one of the options C01 quantifies over: replacement fields must survive
         ("c05", None), ("c06", None), ("c07", None), ("c09", ("C09-R1", "C09-R2")),
         ("c11", ("C11-R1", "C11-R2", "C11-R4", "C11-R5")), ("c12", ("C12-R1", "C12-R2", "C12-R4", "C12-R5")),
         ("c13", None), ("c14", ("C14-R1", "C14-R2", "C14-R5")),
